@@ -66,9 +66,18 @@ class TreeAutoNamer(PathTrackingVisitor):
         context["global"]["name"] = name
         yield from self.generic_visit(node, context)
 
+    def _clear_names(self, node):
+        """remove the names left by a previous naming"""
+        if get_name(node) is not None:
+            delattr(node, NAME_ATTR)
+        for child in node.children:
+            self._clear_names(child)
+
     def visit(self, node):
         """visit the tree and add names to nodes while tracking their path
         """
+        # an element that gets no name this time must not keep the one of a previous naming
+        self._clear_names(node)
         # trick: we use a "global" dict inside context dict so that when we copy context,
         # we still track the same objects
         context = {"global": {"name": None, "name_to_path": {}}}
